@@ -101,7 +101,7 @@ fn run(rng: &mut Rng, idx: u64, tier: Tier) -> CaseOut {
         return super::big::run("C20", idx - small, rng, tier);
     }
     let mut nopts = NetOpts::default();
-    nopts.kind_weights = [2, 5, 5, 1];
+    nopts.kind_weights = [2, 5, 5, 3];
     if tier == Tier::Thorough {
         nopts.max_vars = 5;
         nopts.max_param_bits = 10;
